@@ -172,3 +172,123 @@ func c07CrossingWrites(c *Ctx, be string) bool {
 	}
 	return true
 }
+
+// c07QueuedWriters: three overlapping writers - W1 (touches a document neither of the others selects) is inside its
+// transaction when W2 calls, so W2 has to wait (or, on an optimistic backend, runs beside it); W3 calls the moment W1
+// returns. W2 and W3 are a crossing pair, each held after selecting until the other has selected. A writer admitted
+// while another one's transaction is still open - a release handed to the wrong transaction - shows as the swapped
+// state no sequential order gives.
+func c07QueuedWriters(c *Ctx, be string) bool {
+	for rep := 0; rep < c.N(3, 12); rep++ {
+		for _, indexes := range [][]string{{"x"}, {"x", "y"}} {
+			c.Evals++
+			build := func() *Impl {
+				im := NewImpl(be, c.Scratch)
+				db := im.db
+				if err := db.CreateCollection("k"); err != nil {
+					panic(err)
+				}
+				for _, f := range indexes {
+					if err := db.CreateIndex("k", f); err != nil {
+						panic(err)
+					}
+				}
+				docs := []*d.Document{}
+				for i, x := range []int64{1, 2, 3, 7} {
+					docs = append(docs, d.NewDocumentOf(map[string]interface{}{"_id": fixedId(610000 + i), "x": x, "y": int64(0), "n": int64(i)}))
+				}
+				if err := db.Insert("k", docs...); err != nil {
+					panic(err)
+				}
+				return im
+			}
+			state := func(im *Impl) string {
+				docs, _ := im.db.FindAll(query.NewQuery("k").Sort(query.SortOption{Field: "n", Direction: 1}))
+				out := []string{}
+				for _, doc := range docs {
+					out = append(out, fmt.Sprintf("n%v:x=%v,y=%v", doc.Get("n"), doc.Get("x"), doc.Get("y")))
+				}
+				byIdx, _ := im.db.FindAll(query.NewQuery("k").Sort(query.SortOption{Field: "x", Direction: 1}))
+				for _, doc := range byIdx {
+					out = append(out, fmt.Sprint(doc.Get("x")))
+				}
+				return strings.Join(out, " ")
+			}
+			type wop struct {
+				x   int64
+				set string
+				val int64
+			}
+			ops := []wop{{7, "y", 1}, {1, "x", 3}, {3, "x", 1}}
+			run := func(im *Impl, o wop, inside func()) error {
+				var once sync.Once
+				return im.db.UpdateFunc(query.NewQuery("k").Where(query.Field("x").Eq(o.x)), func(doc *d.Document) *d.Document {
+					if inside != nil {
+						once.Do(inside)
+					}
+					doc.Set(o.set, o.val)
+					return doc
+				})
+			}
+			serial := map[string]bool{}
+			for _, order := range [][]int{{0, 1, 2}, {0, 2, 1}, {1, 0, 2}, {1, 2, 0}, {2, 0, 1}, {2, 1, 0}} {
+				im := build()
+				for _, i := range order {
+					run(im, ops[i], nil)
+				}
+				serial[state(im)] = true
+				im.Destroy()
+			}
+			im := build()
+			w1In, sel2, sel3 := make(chan struct{}), make(chan struct{}), make(chan struct{})
+			errs := make([]error, 3)
+			var wg sync.WaitGroup
+			wg.Add(3)
+			go func() {
+				defer wg.Done()
+				errs[0] = run(im, ops[0], func() { close(w1In); time.Sleep(40 * time.Millisecond) })
+				// W3 calls the moment W1 has returned
+				go func() {
+					defer wg.Done()
+					errs[2] = run(im, ops[2], func() {
+						close(sel3)
+						select {
+						case <-sel2:
+						case <-time.After(120 * time.Millisecond):
+						}
+					})
+				}()
+			}()
+			go func() {
+				defer wg.Done()
+				<-w1In
+				errs[1] = run(im, ops[1], func() {
+					close(sel2)
+					select {
+					case <-sel3:
+					case <-time.After(120 * time.Millisecond):
+					}
+				})
+			}()
+			wg.Wait()
+			got := state(im)
+			im.Destroy()
+			c.Count("queued-writers:" + be)
+			if errs[0] == nil && errs[1] == nil && errs[2] == nil {
+				c.NonTrivial(fmt.Sprintf("queued-%s-%d-%d", be, rep, len(indexes)))
+				if !serial[got] {
+					exp := []string{}
+					for k := range serial {
+						exp = append(exp, k)
+					}
+					sort.Strings(exp)
+					c.Violation(&Replay{Stream: "crossing-writes", Backend: be, Case: []interface{}{J{"cell": fmt.Sprintf("%s: W1 [x==7 -> y:=1] in its transaction when W2 [x==1 -> x:=3] calls; W3 [x==3 -> x:=1] calls when W1 returns; indexes %v", be, indexes)}},
+						Expected: exp, Actual: []string{got},
+						Note: "three overlapping bulk updates all returned success, but the final state is not the result of any of their six sequential orders"})
+					return false
+				}
+			}
+		}
+	}
+	return true
+}
